@@ -397,6 +397,93 @@ func runC16(r *Report) {
 		})
 	}
 	r.Check(cleared, "R2", "unchoke/choke-clears-queue", unchoke.Pos(), "choking discards the queued requests", "choking no longer clears peer.requested: requests that were choked away are served after the next unchoke")
+	// … on every path: once the flag says "choking", no return is reached with the queue still in place (a reject that
+	// cannot be written — ErrCongested — must not leave the choked-away requests to be served after the next unchoke)
+	{
+		isRet := func(i ssa.Instruction) bool { _, ok := i.(*ssa.Return); return ok }
+		isClear := func(i ssa.Instruction) bool {
+			st, ok := isStoreToField(i, req)
+			return ok && isNilConst(st.Val)
+		}
+		alwaysClears := map[*ssa.Function]int{}
+		var clears func(i ssa.Instruction) bool
+		clears = func(i ssa.Instruction) bool {
+			if isClear(i) {
+				return true
+			}
+			c, ok := i.(*ssa.Call)
+			if !ok {
+				return false
+			}
+			h := c.Call.StaticCallee()
+			if h == nil || h.Blocks == nil || relPkg(h) != "peer" || !(p.inUnitOf(h, unchoke)) {
+				return false
+			}
+			switch alwaysClears[h] {
+			case 1:
+				return true
+			case 2, 3:
+				return false
+			}
+			alwaysClears[h] = 3
+			miss, reached := pathsMissingEntry(h, isRet, nil, []edgeReq{{Name: "clear", Instr: clears}})
+			if reached > 0 && len(miss) == 0 {
+				alwaysClears[h] = 1
+				return true
+			}
+			alwaysClears[h] = 2
+			return false
+		}
+		var clearedAfter func(start ssa.Instruction, depth int) (bool, string)
+		clearedAfter = func(start ssa.Instruction, depth int) (bool, string) {
+			miss, _ := pathsMissing(start, -1, isRet, nil, []edgeReq{{Name: "clear", Instr: clears}})
+			if len(miss) == 0 {
+				return true, ""
+			}
+			f := start.Parent()
+			if f == unchoke || depth > 2 || !p.inUnitOf(f, unchoke) {
+				return false, fname(f)
+			}
+			calls, esc := p.callSitesOf(f)
+			if len(esc) > 0 || len(calls) == 0 {
+				return false, fname(f)
+			}
+			for _, cs := range calls {
+				ci, ok := cs.(ssa.Instruction)
+				if !ok {
+					return false, fname(f)
+				}
+				if callContradicts(cs, start) {
+					continue
+				}
+				if ok2, where := clearedAfter(ci, depth+1); !ok2 {
+					return false, where
+				}
+			}
+			return true, ""
+		}
+		nZero := 0
+		for _, acc := range p.fieldAccesses(am) {
+			fa, ok := acc.Instr.(*ssa.FieldAddr)
+			if !ok {
+				continue
+			}
+			for _, ref := range *fa.Referrers() {
+				c, isCall := ref.(*ssa.Call)
+				if !isCall || !isStdCall(c, "sync/atomic", "", "StoreUint32") {
+					continue
+				}
+				if v, okv := constInt(c.Call.Args[1]); !okv || v != 0 {
+					continue
+				}
+				nZero++
+				okc, where := clearedAfter(c, 0)
+				r.Check(okc, "R2", fname(acc.Fn)+"/choke-clears-queue-on-every-path", c.Pos(), "after the flag is cleared every path to a return has emptied the queue",
+					"after amUnchoking is set to 0 a path through "+where+" returns with peer.requested still in place (an error return inside the reject loop): a caller that ignores the error — the NotInterested handler does — keeps a peer whose choked-away requests are served after the next unchoke")
+			}
+		}
+		r.Sentinel("R2.choke-paths", nZero, 1)
+	}
 	// ---------------- R4 (shared taint)
 	{
 		t := newTaint(TaintCfg{P: p, Scope: c05Scope(), IsSource: wireSource(p), Limit: 1 << 27})
